@@ -1,6 +1,8 @@
 CONSTANTS
   MaxN = 9
   Kinds <- KindsDup
+  Bases <- BasesEmpty
+  MaxSteps = 99
   DUP = TRUE
   SFlaws <- SFlawsDef
 SPECIFICATION Spec
